@@ -213,7 +213,8 @@ class C11Machine(_BatchBase):
         small = tier == 'quick'
         exp = expgen.gen_experiment(rng, faults=True, max_samples=3 if small else 5, max_beads=1 if small and rng.chance(0.7) else 2,
                                     small=small)
-        return {'exp': exp, 'stub': rng.chance(0.3), 'seed': rng.randint(0, 2 ** 31 - 1)}
+        return {'exp': exp, 'stub': rng.chance(0.3), 'seed': rng.randint(0, 2 ** 31 - 1),
+                'second_pass': rng.randint(0, 5) if rng.chance(0.35) else None}
 
     def execute(self, case):
         import FlowCal as F
@@ -400,6 +401,48 @@ class C11Machine(_BatchBase):
                                 'Analysis Notes', 'Number of Events', 'Acquisition Time (s)') else col,
                                 'row %s: %s = %r in the batch, %r alone' % (s['ID'], col, st.loc[s['ID'], col], st1.loc[s['ID'], col])))
                             break
+            # ---- second pass: the previous OUTPUT table is processed again after a file has disappeared ------------
+            if case.get('second_pass') is not None and not V:
+                healthy = [s_ for s_ in exp['samples'] if not isinstance(samples[s_['ID']], X.ExcelUIException)
+                           and s_['File Path'] in exp['files']]
+                if healthy:
+                    victim = healthy[case['second_pass'] % len(healthy)]
+                    others = [s_ for s_ in exp['samples'] if s_['File Path'] == victim['File Path']]
+                    E.dk.remove(victim['File Path'])
+                    bump(out['faults'], 'file_removed_between_passes')
+                    k2, r2 = E.samples(fx, beads_t, st.copy())
+                    out['evals'] += 1
+                    if k2 == 'exc':
+                        V.append(violation('C11/batch-aborted', 'second-pass/samples/%s' % type(r2).__name__, str(r2)[:200]))
+                    else:
+                        st2 = st.copy()
+                        k3, r3 = E.call(X.add_samples_stats, st2, r2)
+                        if k3 == 'exc':
+                            V.append(violation('C11/batch-aborted', 'second-pass/add_samples_stats/%s' % type(r3).__name__, str(r3)[:200]))
+                        else:
+                            gone = {o['ID'] for o in others}
+                            for s_ in exp['samples']:
+                                sid = s_['ID']
+                                if sid in gone:
+                                    if not isinstance(r2[sid], X.ExcelUIException) or not str(st2.loc[sid, 'Analysis Notes']).startswith('ERROR:'):
+                                        V.append(violation('C11/row-not-error', 'second-pass/file_not_found',
+                                                           'row %s whose file disappeared is not reported as an error' % sid))
+                                    for col in new_cols:
+                                        if col == 'Analysis Notes':
+                                            continue
+                                        v_ = st2.loc[sid, col]
+                                        if not (v_ == '' or pd.isnull(v_)):
+                                            V.append(violation('C11/error-row-stats', 'second-pass/' + col.split(' ', 1)[-1],
+                                                               'row %s failed in the second pass but still shows %s=%r' % (sid, col, v_)))
+                                            break
+                                else:
+                                    for col in new_cols:
+                                        if not stat_equal(st.loc[sid, col], st2.loc[sid, col]):
+                                            V.append(violation('C11/healthy-stats-differ', 'second-pass/' + (col.split(' ', 1)[-1]),
+                                                               'row %s: %s = %r in the first pass, %r in the second' % (
+                                                                   sid, col, st.loc[sid, col], st2.loc[sid, col])))
+                                            break
+                            bump(out['probes'], 'second_pass_on_output_table')
             nf = sum(1 for x in sfault.values() if x)
             out['sigs'].add('%d/%d|%s|%s|%s|%s' % (
                 len(exp['beads']), len(exp['samples']), ','.join(str(b['fault']) for b in exp['beads']),
@@ -436,7 +479,7 @@ class C10Machine(_BatchBase):
 
     def plan(self, tier):
         if tier == 'quick':
-            return {'runs': 200, 'budget_s': 150, 'batch': 1, 'shrink_s': 240}
+            return {'runs': 170, 'budget_s': 150, 'batch': 1, 'shrink_s': 240}
         return {'runs': 10000, 'budget_s': 1800, 'batch': 1, 'shrink_s': 400}
 
     def generate(self, rng, tier, index):
